@@ -178,7 +178,7 @@ def c02(ctx):
         elif kv.get('rtview') != 'same':
             out.append((cid, "the value's own bytes map to different content"))
         if not kv.get('inside', '').startswith('ok'):
-            out.append((cid, 'a reachable reference lies outside the slice: %s' % kv.get('inside')))
+            out.append((cid, 'a reachable reference lies outside the slice or is misaligned: %s' % kv.get('inside')))
     return out, n
 
 
@@ -302,6 +302,23 @@ def c06(ctx):
                 out.append((cid, 'trailing bytes change the content'))
             elif kv.get('size') != bkv.get('size'):
                 out.append((cid, 'trailing bytes change size(): %s vs %s' % (kv.get('size'), bkv.get('size'))))
+    return out, n
+
+
+def c14(ctx):
+    """constructing / assigning in place never touches memory outside the slice (guard bytes)"""
+    out = []
+    n = 0
+    for cid, l in ctx.ops('E', 'A', 'D'):
+        r = ctx.rres.get(cid)
+        if r is None:
+            continue
+        n += 1
+        _, head, kv, flags = parse_kv(r)
+        if 'OOB-WRITE' in flags:
+            out.append((cid, 'memory outside the slice handed to the library was written'))
+        if kv.get('buf') is not None and kv['buf'] != '-' and len(kv['buf']) != 2 * ctx.meta[cid]['len']:
+            out.append((cid, 'the buffer length changed'))
     return out, n
 
 
@@ -455,13 +472,14 @@ PROJECTION = {
     'C04': {'L': None, 'M': ['blen']},
     'C05': {'M': ['size', 'tv', 'tview', 'tsize']},
     'C06': {'M': ['view', 'size']},
+    'C14': {'E': ['buf'], 'A': ['buf'], 'D': ['buf']},
     'C15': {'E': [], 'D': []},
     'C18': {'A': ['buf', 'val', 'view', 'size']},
     'C19': {'V': [], 'M': []},
     'C20': {'D': ['buf', 'val', 'view', 'size']},
 }
 
-ORACLES = {'C01': c01, 'C02': c02, 'C03': c03, 'C04': c04, 'C05': c05, 'C06': c06, 'C15': c15, 'C18': c18,
+ORACLES = {'C01': c01, 'C02': c02, 'C03': c03, 'C04': c04, 'C05': c05, 'C06': c06, 'C14': c14, 'C15': c15, 'C18': c18,
            'C19': c19, 'C20': c20}
 
 
